@@ -4,8 +4,10 @@
 (* defect to the pipeline STAGE at which it surfaces:                      *)
 (*   sanity  - context-free checks of ProcessBlock: refused, not stored,   *)
 (*             may be offered again;                                       *)
-(*   context - checks against the parent chain before storing: refused,    *)
-(*             not stored;                                                 *)
+(*   context - HEADER checks against the parent chain: refused, not stored, *)
+(*             and the bare header is refused by header-first delivery;    *)
+(*   bcontext- checks of the block's transactions against the parent chain *)
+(*             before storing: refused, not stored; the header alone passes;*)
 (*   connect - checks when the block is connected or verified for a        *)
 (*             reorganisation: stored and indexed, marked failed the first *)
 (*             time connection is attempted, descendants invalid.          *)
@@ -36,9 +38,9 @@ Rules == {
   [name |-> "too-many-sigops",                   stage |-> "sanity",  edge |-> TRUE],   \* 80004 / 80000 cost
   [name |-> "time-not-after-median-time-past",   stage |-> "context", edge |-> TRUE],   \* MTP / MTP + 1
   [name |-> "unexpected-difficulty",             stage |-> "context", edge |-> FALSE],
-  [name |-> "unfinalized-transaction",           stage |-> "context", edge |-> TRUE],   \* lock time = height / height - 1
-  [name |-> "unexpected-witness",                stage |-> "context", edge |-> FALSE],
-  [name |-> "bad-witness-commitment",            stage |-> "context", edge |-> FALSE],
+  [name |-> "unfinalized-transaction",           stage |-> "bcontext", edge |-> TRUE],   \* lock time = height / height - 1
+  [name |-> "unexpected-witness",                stage |-> "bcontext", edge |-> FALSE],
+  [name |-> "bad-witness-commitment",            stage |-> "bcontext", edge |-> FALSE],
   [name |-> "coinbase-pays-too-much",            stage |-> "connect", edge |-> FALSE],  \* subsidy + fees + 1 (valid blocks claim subsidy + fees exactly)
   [name |-> "missing-input",                     stage |-> "connect", edge |-> FALSE],
   [name |-> "double-spend-in-block",             stage |-> "connect", edge |-> FALSE],
@@ -46,10 +48,11 @@ Rules == {
   [name |-> "outputs-exceed-inputs",             stage |-> "connect", edge |-> FALSE],
   [name |-> "script-evaluates-false",            stage |-> "connect", edge |-> FALSE],
   [name |-> "bip30-overwrites-unspent-coinbase", stage |-> "connect", edge |-> FALSE],  \* valid blocks re-create only fully spent coinbases
-  [name |-> "sequence-lock-not-met",             stage |-> "connect", edge |-> TRUE]    \* BIP68: needs 2 / 1 confirmations, has 1
+  [name |-> "sequence-lock-not-met",             stage |-> "connect", edge |-> TRUE],   \* BIP68: needs 2 / 1 confirmations, has 1
+  [name |-> "sequence-time-lock-not-met",        stage |-> "connect", edge |-> TRUE]    \* BIP68 time lock: d/512 + 1 / d/512 units, d = MTP(parent) - MTP(before the input's block)
 }
 
-Stages == {"sanity", "context", "connect"}
+Stages == {"sanity", "context", "bcontext", "connect"}
 
 Init == cat = Rules
 Next == UNCHANGED cat
